@@ -9,7 +9,7 @@ from corr import Session, prog_hash
 from tasks import fresh_session
 
 ID = "C01"
-THEOREM_FILES = ["Summer.Props.C01", "Summer.Props.C01Step"]
+THEOREM_FILES = ["Summer.Props.C01", "Summer.Props.C01Step", "Summer.Props.C01Source"]
 TASK = "task"
 LEVEL = "proof"
 RULE = ("programs from harness/gen.py (all nine flow kinds, plain/age/strain stratifications, adjustments, mixing, time/state/parameter "
